@@ -83,5 +83,5 @@ fn er_contract<const L: usize>()
 #[kani::proof] #[kani::unwind(4)] fn k_entity_reactors_l1() { er_contract::<1>(); }
 //# id=K.entity_reactors.L2 props=C01,C06,C16 strength=bounded shape="per-entity list L=2, all contents" tier=quick fns=EntityReactors::insert,EntityReactors::remove,EntityReactors::count,EntityReactors::iter_rtype,EntityReactors::iter_reactors
 #[kani::proof] #[kani::unwind(5)] fn k_entity_reactors_l2() { er_contract::<2>(); }
-//# id=K.entity_reactors.L3 props=C01,C06,C16 strength=bounded shape="per-entity list L=3, all contents" tier=quick fns=EntityReactors::insert,EntityReactors::remove,EntityReactors::count,EntityReactors::iter_rtype,EntityReactors::iter_reactors
+//# id=K.entity_reactors.L3 props=C01,C06,C16 strength=bounded shape="per-entity list L=3, all contents" tier=thorough fns=EntityReactors::insert,EntityReactors::remove,EntityReactors::count,EntityReactors::iter_rtype,EntityReactors::iter_reactors
 #[kani::proof] #[kani::unwind(6)] fn k_entity_reactors_l3() { er_contract::<3>(); }
